@@ -1,4 +1,6 @@
 import BeyondVerif.Lemmas.Interp
+import BeyondVerif.Lemmas.InterpFormula
+import BeyondVerif.Lemmas.LagrangeRemainder
 import Mathlib.Tactic.FieldSimp
 import Mathlib.Tactic.Ring
 import Mathlib.Tactic.IntervalCases
@@ -117,8 +119,9 @@ theorem interp_lagrange_window (xs : List ℝ) (ys : List (List ℝ)) (k : ℕ) 
   rw [if_neg (by simp), if_neg (by simp [hinc])]
   unfold interpCall
   simp only [hx0', hxl']
-  rw [if_neg (by rw [← e0, ← el]; exact not_not.mpr ⟨hx0, hxl⟩)]
-  simp only [lagrangeCall, hp, hys, ← hwdef, hxs, hysl, lx, ly]
+  rw [if_neg (by rw [callRefuses_iff, ← e0, ← el]; exact not_not.mpr ⟨hx0, hxl⟩)]
+  simp only [lagrangeCall, hp, hys, ← hwdef, hxs, hysl, ly, lagrangeRefuses_self,
+    lagrangeFormula_eq k _ _ x (by omega) lx ly]
   simp
 
 /-! ## Lagrange: nodes and polynomials -/
@@ -240,8 +243,8 @@ theorem interp_linear_eq (xs : List ℝ) (ys : List (List ℝ)) (o : Option Int)
   rw [if_neg (by simp), if_neg (by simp [hinc])]
   unfold interpCall
   simp only [hx0', hxl']
-  rw [if_neg (by rw [← e0, ← el]; exact not_not.mpr ⟨hx0, hxl⟩)]
-  simp only [linearCall, hp, hxs, hysl]
+  rw [if_neg (by rw [callRefuses_iff, ← e0, ← el]; exact not_not.mpr ⟨hx0, hxl⟩)]
+  simp only [linearCall, hp, linearSlice_eq, hxs, hysl]
 
 theorem linRow_right (x0 x1 : ℝ) (h : x0 ≠ x1) : ∀ (y0 y1 : List ℝ), y0.length = y1.length → linRow x1 x0 x1 y0 y1 = y1
   | [], [], _ => rfl
@@ -249,7 +252,7 @@ theorem linRow_right (x0 x1 : ℝ) (h : x0 ≠ x1) : ∀ (y0 y1 : List ℝ), y0.
   | _ :: _, [], h' => by simp at h'
   | a :: y0, b :: y1, h' => by
     have hne : x1 - x0 ≠ 0 := sub_ne_zero.mpr (Ne.symm h)
-    simp only [linRow, linRow_right x0 x1 h y0 y1 (by simpa using h')]
+    simp only [linRow, linearFormula_eq, linRow_right x0 x1 h y0 y1 (by simpa using h')]
     congr 1
     field_simp
     ring
@@ -259,7 +262,7 @@ theorem linRow_left (x0 x1 : ℝ) : ∀ (y0 y1 : List ℝ), y0.length = y1.lengt
   | [], _ :: _, h' => by simp at h'
   | _ :: _, [], h' => by simp at h'
   | a :: y0, b :: y1, h' => by
-    simp only [linRow, linRow_left x0 x1 y0 y1 (by simpa using h')]
+    simp only [linRow, linearFormula_eq, linRow_left x0 x1 y0 y1 (by simpa using h')]
     simp
 
 /-- **Node exactness of the linear method** (over ℝ; in doubles the value is within rounding of the node) -/
@@ -309,7 +312,7 @@ theorem interp_linear_reproduces_pwl (xs : List ℝ) (f : ℝ → ℝ) (o : Opti
   have e2 : (xs.map (fun t => [f t])).getD (p + 1) [] = [f (xs.getD (p + 1) 0)] := by
     simp [List.getD_eq_getElem?_getD, List.getElem?_map, List.getElem?_eq_getElem hp1]
   rw [e1, e2]
-  simp only [linRow]
+  simp only [linRow, linearFormula_eq]
   rw [hab _ le_rfl (le_of_lt hlt), hab _ (le_of_lt hlt) le_rfl, hab x hb0 hb1]
   have hne : xs.getD (p + 1) 0 - xs.getD p 0 ≠ 0 := sub_ne_zero.mpr (ne_of_gt hlt)
   congr 2
@@ -335,7 +338,7 @@ theorem outside_rejected (m : Method) (o : Option Int) (xs : List ℝ) (ys : Lis
     have el := getLast?_eq_getD xs xl hxl'
     unfold interpCall
     simp only [hx0', hxl']
-    rw [if_pos (by rw [← e0, ← el]; rintro ⟨ha, hb⟩; rcases hout with h | h <;> linarith)]
+    rw [if_pos (by rw [callRefuses_iff, ← e0, ← el]; rintro ⟨ha, hb⟩; rcases hout with h | h <;> linarith)]
     exact ⟨_, rfl⟩
   · exact ⟨_, rfl⟩
 
@@ -360,13 +363,13 @@ theorem outside_value_error (m : Method) (o : Option Int) (xs : List ℝ) (ys : 
   rw [if_neg hinit, if_neg (by simp [hinc])]
   unfold interpCall
   simp only [hx0', hxl']
-  rw [if_pos (by rw [← e0, ← el]; rintro ⟨ha, hb⟩; rcases hout with h | h <;> linarith)]
+  rw [if_pos (by rw [callRefuses_iff, ← e0, ← el]; rintro ⟨ha, hb⟩; rcases hout with h | h <;> linarith)]
 
 theorem lagrangeCall_short_value (xs : List ℝ) (ys : List (List ℝ)) (k : Int) (x : ℝ) (hshort : (ys.length : Int) < k)
     (p : ℕ) (hp : prevIdx xs x = some p) : lagrangeCall k xs ys x = .error .value := by
   simp only [lagrangeCall, hp]
   have := pySlice_length_le ys (windowRaw p k ys.length).1 (windowRaw p k ys.length).2
-  rw [if_pos (by omega)]
+  rw [if_pos (by rw [lagrangeRefuses_iff]; omega)]
 
 theorem lagrangeCall_short (xs : List ℝ) (ys : List (List ℝ)) (k : Int) (x : ℝ) (hshort : (ys.length : Int) < k) :
     ∃ e, lagrangeCall k xs ys x = .error e := by
@@ -385,9 +388,9 @@ theorem too_short_rejected (xs : List ℝ) (ys : List (List ℝ)) (k : Int) (x :
     split
     · rename_i x0 xl _ _
       by_cases hr : (x0 ≤ x ∧ x ≤ xl)
-      · rw [if_neg (not_not.mpr hr)]
+      · rw [if_neg (by rw [callRefuses_iff]; exact not_not.mpr hr)]
         exact lagrangeCall_short xs ys k x hshort
-      · rw [if_pos hr]; exact ⟨_, rfl⟩
+      · rw [if_pos (by rw [callRefuses_iff]; exact hr)]; exact ⟨_, rfl⟩
     · exact ⟨_, rfl⟩
   · rw [if_pos hinc]; exact ⟨_, rfl⟩
 
@@ -409,9 +412,9 @@ theorem too_short_value_error (xs : List ℝ) (ys : List (List ℝ)) (k : Int) (
   unfold interpCall
   simp only [hx0', hxl']
   by_cases hr : (x0 ≤ x ∧ x ≤ xl)
-  · rw [if_neg (not_not.mpr hr)]
+  · rw [if_neg (by rw [callRefuses_iff]; exact not_not.mpr hr)]
     exact lagrangeCall_short_value xs ys k x hshort p hp
-  · rw [if_pos hr]
+  · rw [if_pos (by rw [callRefuses_iff]; exact hr)]
 
 /-! ## Ephem -/
 
